@@ -1087,6 +1087,9 @@ class C04(PropertyCheck):
         "QipVerif.C04.import_faithful_w1_partial",
         "QipVerif.C04.import_den_w1_partial",
         "QipVerif.C04.import_unitary_w1_partial",
+        "QipVerif.C04.render_injective",
+        "QipVerif.C04.cache_key_injective",
+        "QipVerif.C04.render_collisions",
         "QipVerif.C04.tokenizer_faithful",
         "QipVerif.C04.read_tokens_faithful",
         "QipVerif.C04.tokenizer_total",
